@@ -80,7 +80,7 @@ impl Prop for C25 {
     fn runs(tier: Tier) -> u64 {
         match tier {
             Tier::Quick => 150_000,
-            Tier::Thorough => 5_000_000,
+            Tier::Thorough => 50_000_000,
         }
     }
     fn gen(r: &mut SplitMix, _t: Tier, _i: u64) -> Scn {
